@@ -12,7 +12,7 @@ use crate::{
         decimal::{
             GreaterEqualZeroDecimal, LessEqualZeroDecimal, NegDecimal, PosDecimal,
         },
-        math::c_maybe_round_to_effective_cent,
+        math::maybe_round_to_effective_cent,
     },
 };
 
@@ -69,10 +69,13 @@ fn get_delta_superficial_loss_info(
 
     let m_sfl = get_superficial_loss_ratio(idx, txs, ptf_statuses)?;
 
+    // Note that this can legitimately end up as zero (a loss of a tiny fraction
+    // of a cent), in which case there is effectively no superficial loss.
     let calculated_sfl_amount: LessEqualZeroDecimal = match &m_sfl {
-        Some(sfl) => LessEqualZeroDecimal::from(c_maybe_round_to_effective_cent(
-            cap_loss.mul_pos(sfl.sfl_ratio.to_posdecimal()),
-        )),
+        Some(sfl) => LessEqualZeroDecimal::try_from(maybe_round_to_effective_cent(
+            *cap_loss * sfl.sfl_ratio.to_decimal(),
+        ))
+        .unwrap(),
         None => LessEqualZeroDecimal::zero(),
     };
 
@@ -139,7 +142,11 @@ fn get_delta_superficial_loss_info(
 
         // We don't need calculated_sfl_amount to be a LessEqualZeroDecimal anymore
         let calculated_sfl_amount =
-            NegDecimal::try_from(*calculated_sfl_amount).unwrap();
+            match NegDecimal::try_from(*calculated_sfl_amount) {
+                Ok(v) => v,
+                // The superficial portion of the loss rounded to nothing.
+                Err(_) => return Ok(None),
+            };
         let potentially_over_applied_sfl =
             sfl.fewer_remaining_shares_than_sfl_shares;
 
@@ -151,8 +158,15 @@ fn get_delta_superficial_loss_info(
         for af in acb_adjust_affiliates {
             let ratio_of_sfl = &sfl.acb_adjust_affiliate_ratios[af];
             if !ratio_of_sfl.numerator.is_zero() && !af.registered() {
-                let af_ratio_posdecimal =
-                    PosDecimal::try_from(*ratio_of_sfl.to_gezdecimal()).unwrap();
+                // Skip affiliates whose portion rounds to nothing.
+                let adjustment_amount = match PosDecimal::try_from(
+                    *calculated_sfl_amount
+                        * Decimal::NEGATIVE_ONE
+                        * ratio_of_sfl.to_decimal(),
+                ) {
+                    Ok(v) => v,
+                    Err(_) => continue,
+                };
 
                 adjust_txs.push(Tx {
                     security: tx.security.clone(),
@@ -163,9 +177,7 @@ fn get_delta_superficial_loss_info(
                         // and amount_per_share should be just divided by the
                         // denominator instead of mult with the decimal.
                         shares_affected: PosDecimal::one(),
-                        amount_per_share: NegDecimal::neg_1()
-                            * calculated_sfl_amount
-                            * af_ratio_posdecimal,
+                        amount_per_share: adjustment_amount,
                     }),
                     memo: format!(
                         "Automatic SfL ACB adjustment. {:.2}% ({}) of SfL, which \
